@@ -11,13 +11,14 @@ def run_demo():
     shp = os.path.join(outdir, f'demo{k}.sh')
     mjs = os.path.join(outdir, f'demo{k}.mjs')
     if os.path.exists(shp):
-        r = sh(f'sh {shp} {wt}', timeout=1800)
+        r = sh(f'bash {shp} {wt}', timeout=1800)
         return r.returncode, r.stdout[-1500:]
     d = tempfile.mkdtemp(prefix='seedrt')
     for f in ('codegen-v2', 'hash', 'err', 'openapi-pp', 'b'):
         sh(f'ts-strip strip packages/beff-client/src/{f}.ts > {d}/{f}.mjs')
     open(os.path.join(d, 'zod-stub.mjs'), 'w').write('export const z = { custom: () => { throw new Error("no zod"); } };\n')
-    r = sh(f'node {mjs} {d}', timeout=600)
+    shutil.copyfile(mjs, os.path.join(d, os.path.basename(mjs)))
+    r = sh(f'node {d}/{os.path.basename(mjs)} {d}', timeout=600)
     shutil.rmtree(d, ignore_errors=True)
     return r.returncode, r.stdout[-1500:]
 sh('git checkout -- . && git clean -fdq -e target')
